@@ -61,3 +61,14 @@ package interp
 //@   invariant deferred-untouched: f.deferred == old(f.deferred) && forall(k, 0, len(f.deferred), f.deferred[k] == old(f.deferred[k]))
 //@   loop 2 index j
 //@   invariant deferred-untouched: f.deferred == old(f.deferred) && forall(k, 0, len(f.deferred), f.deferred[k] == old(f.deferred[k]))
+
+// The panic builtin under a defer statement (`defer panic(v)`) is a deferred call like any other: the
+// closure installed at the defer statement records the call and continues; it must not panic there.
+//@ lit _panic exec#1 (f) (next)
+//@   props C06
+//@   opt safety = off
+//@   opt opaque-calls = *
+//@   opt opaque-havoc = none
+//@   requires [assume] f != nil && n != nil && n.anc != nil
+//@   panics when true
+//@   exits deferred-panic-waits-for-function-exit: n.anc.kind == deferStmt ==> !panicking
